@@ -458,6 +458,7 @@ func init() {
 		c09Reconfigure(r)
 		c09PerOperation(r)
 		c09AuthCallbackPanics(r)
+		c09ResumedSession(r)
 		// the same on a single P: a burst of queued connections is accepted back to back before any session goroutine
 		// gets to run, so anything a session reads late from the accept loop's variables is read after the loop moved on
 		old := runtime.GOMAXPROCS(1)
@@ -471,6 +472,7 @@ func init() {
 		sessionCorrespondence(r, d, seed*31+10, b, p+2, scriptOpts{maxArr: 5, maxItems: 3, allowStall: true}, 60*time.Millisecond, oracleC10)
 		c10Probes(r)
 		c10StalledHandshake(r)
+		c10BadThenSilent(r)
 	}
 	props["C15"] = func(r *Result, d *drv.Driver, tier string, seed int64, replay string) {
 		r.Rule = sessRule("C15 oracle: with ReadTimeout every wait for a request is immediately preceded by a fresh read deadline, with WriteTimeout every response by a fresh write deadline, with zero timeouts no deadline is ever set; a peer stalling inside a request is disconnected when the real deadline (60 ms) expires; plus the same rules observed on real TLS connections (handshake included) for every zero/non-zero combination of the two timeouts, on the server side and on the Client side (incl. a 32 MiB request whose writing takes longer than the Client's ReadTimeout while the response follows at once); plus peers falling silent before the first request, at a message boundary after 1..3 exchanges, and inside the next item header or body (plain and TLS): the server must hang up by itself at the deadline; a request trickling in with every gap below ReadTimeout but the whole above it is not answered; a peer that stops reading so that the response cannot be written is disconnected at the write deadline (whatever ReadTimeout is) and its queued request is not processed.")
@@ -485,5 +487,6 @@ func init() {
 		c15Trickle(r)
 		c15StalledWrite(r)
 		c15SlowHandshake(r)
+		c15DuringShutdown(r)
 	}
 }
